@@ -60,6 +60,22 @@ Prods(sym) ==
                             O("Assign", ""), O("NamedVar", "x"), Id("x"), C, Sym(":="), N("Expr", ""), Sym(";"), C, Sym("}"), C, C>>}
     [] n = "StmtProg" -> {<<O("Program", ""), O("ProcDec", "main"), Kw("proc")>> \o Ident("main") \o <<Sym("("), Sym(")"), Sym("{"),
                             N("Stmts", ""), Sym("}"), C, C>>}
+    \* statement STRUCTURES: statement lists of at most two statements, expressions reduced to a literal or a variable,
+    \* calls with at most one argument - every nesting of blocks, loops, if / else-if / else chains up to the token bound
+    [] n = "StructProg" -> {<<O("Program", ""), O("ProcDec", "main"), Kw("proc")>> \o Ident("main") \o <<Sym("("), Sym(")"), Sym("{"),
+                              N("SStmts", "0"), Sym("}"), C, C>>}
+    [] n = "SStmts" -> {<<>>} \cup (IF sym.a = "2" THEN {} ELSE {<<N("SStmt", ""), N("SStmts", IF sym.a = "0" THEN "1" ELSE "2")>>})
+    [] n = "SStmt" ->
+         {<<O("Empty", ""), Sym(";"), C>>,
+          <<O("Assign", ""), N("SVar", ""), Sym(":="), N("SExpr", ""), Sym(";"), C>>,
+          <<O("Block", ""), Sym("{"), N("SStmts", "0"), Sym("}"), C>>,
+          <<O("If", "else"), Kw("if"), Sym("("), N("SExpr", ""), Sym(")"), N("SStmt", "closed"), Kw("else"), N("SStmt", sym.a), C>>,
+          <<O("While", ""), Kw("while"), Sym("("), N("SExpr", ""), Sym(")"), N("SStmt", sym.a), C>>}
+         \cup {<<O("Call", nm)>> \o Ident(nm) \o <<Sym("("), Sym(")"), Sym(";"), C>> : nm \in CallNames}
+         \cup {<<O("Call", nm)>> \o Ident(nm) \o <<Sym("("), N("SExpr", ""), Sym(")"), Sym(";"), C>> : nm \in CallNames}
+         \cup (IF closed THEN {} ELSE {<<O("If", ""), Kw("if"), Sym("("), N("SExpr", ""), Sym(")"), N("SStmt", ""), C>>})
+    [] n = "SVar" -> {<<O("NamedVar", nm), Id(nm), C>> : nm \in VarNames}
+    [] n = "SExpr" -> {<<O("IntLit", l.v), T(l.k, l.s), C>> : l \in IntLits} \cup {<<N("SVar", "")>>}
     [] n = "Decl" ->
          {<<O("TypeDec", nm), Kw("type")>> \o Ident(nm) \o <<Sym("="), N("TypeExpr", ""), Sym(";"), C>> : nm \in TypeNames}
          \cup {<<O("ProcDec", nm), Kw("proc")>> \o Ident(nm) \o <<Sym("("), N("Params", ""), Sym(")"), Sym("{"),
@@ -101,7 +117,7 @@ Prods(sym) ==
 MinTok(sym) ==
   IF sym.t = "tok" THEN 1
   ELSE IF sym.t # "nt" THEN 0
-  ELSE CASE sym.k = "Decl" -> 5 [] sym.k \in {"TypeExpr", "Stmt", "Var", "Expr", "Add", "Mul", "Fac"} -> 1
+  ELSE CASE sym.k = "Decl" -> 5 [] sym.k \in {"TypeExpr", "Stmt", "Var", "Expr", "Add", "Mul", "Fac", "SStmt", "SVar", "SExpr"} -> 1
          [] sym.k = "Param" -> 3 [] OTHER -> 0
 RECURSIVE Owed(_)
 Owed(s) == IF s = <<>> THEN 0 ELSE MinTok(Head(s)) + Owed(Tail(s))
